@@ -5,6 +5,8 @@ pub mod c01;
 pub mod c02;
 pub mod c03;
 pub mod c04;
+pub mod c06;
+pub mod c07;
 pub mod c12;
 
 #[derive(Clone, Copy, PartialEq, Eq, Debug)]
@@ -29,6 +31,8 @@ pub fn checks(id: &str, tier: Tier) -> Option<Vec<Check>> {
         "C02" => Some(c02::checks(tier)),
         "C03" => Some(c03::checks(tier)),
         "C04" => Some(c04::checks(tier)),
+        "C06" => Some(c06::checks(tier)),
+        "C07" => Some(c07::checks(tier)),
         "C12" => Some(c12::checks(tier)),
         _ => None,
     }
